@@ -150,7 +150,7 @@ func init() {
 	}
 	register(&Prop{
 		ID: "C04sem",
-		Rule: "validation of the trusted JavaScript semantics: generated single-template files of the command fragment of Props/C04d (raw text with quotes, backslashes and HTML-special bytes; prints of int / string / bool expressions with no directive, |id, |noAutoescape, |escapeHtml under the three autoescape settings; let with fresh and SHADOWING names; if/elseif/else; foreach with and without ifempty over list parameters and map fields, loop variables shadowing parameters; " +
+		Rule: "validation of the trusted JavaScript semantics: generated single-template files of the command fragment of Props/C04d (raw text with quotes, backslashes and HTML-special bytes; prints of int / string / bool expressions with no directive, |id, |noAutoescape, |escapeHtml under the three autoescape settings; let with fresh and SHADOWING names; if/elseif/else; foreach with and without ifempty over list parameters and map fields, for over range(…) with one to three arguments (positive literal step), loop variables shadowing parameters; " +
 			"expressions: + - * % on small ints, string concatenation, comparisons, same-type equality, and/or/not, ?:, elvis on a nullable, .k / ?.k / [i] accesses, length, isNonnull, floor/ceiling/round/min/max) x 3 data sets (one of them with missing map fields, null and undefined values, empty lists: TypeErrors and ifempty branches); " +
 			"soyjs.Write's statement text and its run in otto versus renderStmts(toCmds) and its run under Spec/JsStmt.execStmts in the driver, from the same data: text byte for byte, and the completion (output string / TypeError) wherever the semantics is not `unspec`; plus hand-written cases; non-trivial = the engine returns a non-empty string or throws",
 		Gen:         genC04sem,
@@ -432,6 +432,23 @@ func (g *semGen) cmd(d int) string {
 		}
 		b.WriteString("{/if}")
 		return b.String()
+	case 8:
+		// {for} over a range: one to three arguments, the step a positive literal
+		var args string
+		switch g.r.Intn(3) {
+		case 0:
+			args = g.intE(1)
+		case 1:
+			args = g.intE(1) + ", " + g.intE(1)
+		default:
+			args = g.intE(1) + ", " + g.intE(1) + ", " + fmt.Sprintf("%d", 1+g.r.Intn(4))
+		}
+		name := g.bindName()
+		mark := len(g.vars)
+		g.vars = append(g.vars, semVar{name, semI})
+		body := g.block(d - 1)
+		g.vars = g.vars[:mark]
+		return "{for $" + name + " in range(" + args + ")}" + body + "{/for}"
 	default:
 		var list string
 		var et semTy
@@ -543,12 +560,15 @@ var semHands = []struct{ src, data string }{
 	// integers at the edge of exactness: 2^53 is exact, 2^53 + 1 is not
 	{"{namespace sem}\n/** @param n */\n{template .t}\n{$n + 1}{$n * 2}\n{/template}\n", "(m (6e (i 9007199254740991)))"},
 	{"{namespace sem}\n/** @param n */\n{template .t}\n{$n % 3}{-$n % 3}{$n - 10}\n{/template}\n", "(m (6e (i 7)))"},
+	// range loops: empty, one argument, a step that overshoots, a loop variable shadowing the limit
+	{"{namespace sem}\n/** @param n */\n{template .t}\n{for $i in range($n)}{$i}{/for}|{for $i in range(2, $n)}{$i}{/for}|{for $n in range(1, $n, 3)}{$n},{/for}{$n}\n{/template}\n", "(m (6e (i 8)))"},
+	{"{namespace sem}\n/** @param n */\n{template .t}\n{for $i in range($n)}{$i}{/for}|{for $i in range(2, $n)}{$i}{/for}|{for $n in range(1, $n, 3)}{$n},{/for}{$n}\n{/template}\n", "(m (6e (i 0)))"},
 	// raw text with every escape class
 	{"{namespace sem}\n{template .t}\na'b\"c\\d<e>&f=g{sp}{nil}{\\n}{\\t}{lb}{rb}é \n{/template}\n", "(m)"},
 }
 
 func genC04sem(g *G) {
-	fuel := "40"
+	fuel := "60"
 	for hi, h := range semHands {
 		fs := []srcFile{{"sem.soy", h.src}}
 		reg, err := jsCompile(fs, nil)
